@@ -65,6 +65,26 @@ manifest = {
  "engines": [
    {"name": "S", "path": "harness/inpkg/server/zz_verif_s_test.go", "serves_properties": ["C01", "C02", "C03", "C04", "C05", "C06", "C17"],
     "kind_free_text": "sequential in-package replay of TLC-generated and seeded histories on the real LockDB with a virtual clock; ndjson traces validated by TLC"},
+   {"name": "C", "path": "harness/inpkg/server/zz_verif_c_test.go", "serves_properties": ["C01", "C03", "C04", "C06", "C10", "C17"],
+    "kind_free_text": "gated concurrent engine: every request / sweeper / role change in its own goroutine, parked at the reply callback and the verif yield points; a scheduler releases one actor at a time following TLC-generated (LockEngineFine, KeyTable) and seeded schedules; ungated bursts behind one start barrier"},
+   {"name": "RT", "path": "harness/inpkg/server/zz_verif_s_test.go", "serves_properties": ["C03", "C05", "C06", "C10"],
+    "kind_free_text": "the step interpreter on the real clock with the server's own sweepers (millisecond timers, millisecond-wheel hand-over)"},
+   {"name": "F", "path": "harness/inpkg/server/zz_verif_f_test.go", "serves_properties": ["C07", "C08", "C16"],
+    "kind_free_text": "real Aof + LockDB on a scratch directory: stop/start, crash images cut at every record boundary and byte class, images at flush entry and between the two writes of a flush, compaction interrupted at each file-system step, bursts with the channel goroutines parked (zz_verif_fburst_test.go); recovered state judged by TLC against MonAof"},
+   {"name": "E", "path": "harness/inpkg/server/zz_verif_e_test.go", "serves_properties": ["C12"],
+    "kind_free_text": "N real ArbiterManager / ArbiterVoter objects in one process; the driver delivers / loses every request and reply and restarts members as the TLC behaviour dictates"},
+   {"name": "P", "path": "lib/replcluster.py", "serves_properties": ["C09", "C10", "C12", "C19"],
+    "kind_free_text": "real slock processes (leader, followers, replica sets) built from /repo's working tree, every inter-node link through a byte-level recording / fault proxy (lib/replcluster.py, lib/fwdcluster.py, lib/electp.py)"},
+   {"name": "V", "path": "harness/inpkg/server/zz_verif_value_test.go", "serves_properties": ["C15"],
+    "kind_free_text": "TLC-enumerated and seeded value-operation histories on the real LockDB (zz_verif_value_test.go) and the real text protocol handlers (zz_verif_redis_test.go); every step recomputed by TLC (MonValue / MonRedis)"},
+   {"name": "Wire", "path": "harness/inpkg/protocol/zz_verif_wire_test.go", "serves_properties": ["C14"],
+    "kind_free_text": "real codecs and TextParser against spec-computed bytes (protocol package), the server's inline decoder / encoders and text-vs-binary sequences on one connection (harness/inpkg/server/zz_verif_wire_test.go, zz_verif_wseq_test.go)"},
+   {"name": "Proto", "path": "harness/inpkg/server/zz_verif_proto_test.go", "serves_properties": ["C13"],
+    "kind_free_text": "TLC-enumerated input-class paths and output-buffer patterns concretised to bytes and fed to the real Server.handle in child processes; command-pool and extended-flag sequences (engine W / engine X traces judged by MonCrash)"},
+   {"name": "Prim", "path": "harness/inpkg/client/zz_verif_prim_test.go", "serves_properties": ["C19"],
+    "kind_free_text": "the real client library against real server processes (free-running interval histories, TLC call sequences) and against an in-process server on the manual clock (harness/inpkg/server/zz_verif_primv_test.go)"},
+   {"name": "X", "path": "harness/inpkg/server/zz_verif_lockext_test.go", "serves_properties": ["C13"],
+    "kind_free_text": "real LockDB + LockDBExecutor on the virtual clock for the re-issuing / holdless request flags (growth check bin/extra lockext; its histories also run under C13)"},
  ] + ENGINES_EXTRA,
  "checks": checks,
  "not_applicable": [{"property_id": p, "reason": r} for p, r in NA.items()],
